@@ -294,6 +294,21 @@ def gen_heat_tree(rng, n_junc=None):
     return s
 
 
+def gen_gas_heat_tree(rng, n_junc=None):
+    """gas tree with heat losses in a thermal calculation: pipes declared with and against the flow, so the gas
+    post-processing (norm factors, gas velocities) meets reverse flow with a temperature change along the branch"""
+    s = gen_heat_tree(rng, n_junc=n_junc or int(rng.integers(2, 9)))
+    s["fluid"] = str(rng.choice(GASES))
+    for e in s["sinks"]:
+        e["mdot"] *= 0.02
+    for p in s["pipes"]:
+        p["d_mm"] = float(max(p["d_mm"], 80.0))
+        if p["u_w_per_m2k"] == 0.0 and rng.random() < 0.7:
+            p["u_w_per_m2k"] = float(rng.choice([2.0, 10.0, 25.0]))
+    s["options"]["mode"] = str(rng.choice(["sequential", "bidirectional"]))
+    return s
+
+
 HC_MODES = ["MF_QE", "MF_DT", "MF_TR", "QE_DT", "QE_TR"]
 
 
